@@ -1,6 +1,7 @@
 import GtirbVerif.Spec.Scopes
 import GtirbVerif.Lemmas.SortOn
 import GtirbVerif.Lemmas.Store
+import GtirbVerif.Lemmas.StoreOrder
 
 /-!
 # C07 — each registered insertion lands exactly once, exactly where asked
@@ -25,8 +26,10 @@ import GtirbVerif.Lemmas.Store
   often as it was registered, whatever else was registered in between; `resolve_offsets` answers
   with a permutation of what it was given - nothing dropped, nothing doubled -, each at the first
   potential offset of its scope, in listing order (offset; insertions before the replacement or
-  deletion that starts there; registration id), pairwise non-overlapping; and it refuses a
-  request list exactly when two requests overlap in that order.
+  deletion that starts there; registration id), pairwise non-overlapping; it refuses a
+  request list exactly when two requests overlap in that order; and with distinct registration
+  ids neither what the store hands out (as a set) nor what `resolve_offsets` answers depends on the
+  order of the registrations (`store_any_registration_order`, `resolve_offsets_any_order`).
 -/
 namespace GtirbVerif.Props.C07
 open GtirbVerif GtirbVerif.IR GtirbVerif.Listing GtirbVerif.Scopes
@@ -178,6 +181,19 @@ theorem scope_offset (env : BlockEnv) (hd : Bool) (sc : Store.Scope) (off : Nat)
                   · exact key p h
   | allFunctions en p fs => simp only [firstOffset] at h; split at h; · cases h
                             · exact key p h
+
+/-- **registered in any order** (the store): two registration sequences that are permutations of each other
+hand out, for every block, permutations of one list -/
+theorem store_any_registration_order {ms1 ms2 : List Mod} (hp : ms1.Perm ms2) (env : BlockEnv) :
+    ((build ms1).modificationsFor env).Perm ((build ms2).modificationsFor env) :=
+  (modificationsFor_build ms1 env).trans ((hp.filter _).trans (modificationsFor_build ms2 env).symm)
+
+/-- **... in any order** (the resolution): with distinct registration ids `resolve_offsets` gives the same
+answer for every permutation of the modifications it is handed -/
+theorem resolve_offsets_any_order {env : BlockEnv} {m1 m2 : List Mod} {r : List (Mod × Nat)} (hp : m1.Perm m2)
+    (hid : ∀ a ∈ m1, ∀ b ∈ m1, a.id = b.id → a = b) (h : resolveOffsets env m1 = .ok r) :
+    resolveOffsets env m2 = .ok r :=
+  resolve_perm hp hid h
 
 /-! non-vacuity: two insertions and a replacement at one offset, registered replacement first -/
 private def envX : BlockEnv := { id := 7, isCode := true, func := none, nonterm := [1, 2], partialDis := false }
